@@ -32,7 +32,8 @@ MANIFEST = dict(
           "EVERY arithmetic with 0 == 0 and a total division by nonzero values -- f64 and Complex<f64> as much as Q -- a divisor with nonzero "
           "leading coefficient and a dividend of at most MAX coefficients give Ok(q, r) with r zero or shorter than v, within len(u) passes, never a "
           "panic, never the iteration-cap error; for f64 and Complex<f64> EVERY input (NaN, infinities, zero leading coefficient) is classified as "
-          "error value (exactly the empty / all-zero divisors) or Ok; over any field u = q*v + r coefficientwise; "
+          "error value (exactly the empty / all-zero divisors) or Ok; over any field u = q*v + r coefficientwise, and this together with the "
+          "degree condition determines q and r (uniqueness); "
           "The pre-repair loop is refuted in Coq on the float instance (x / 49x runs into the cap). The same Gallina function is run against the "
           "implementation (Rat vs Qc exact; f64/Complex bitwise, outcome compared exactly) on all dividend degrees 0..10 x divisor degrees 0..6, and "
           "an exact recomputation of u - (q*v + r) searches for a failing input (exact over Rat, <= 1e-10*scale over floats)."),
